@@ -3,6 +3,8 @@ import SJ.Spec.Str
 import SJ.Model.Escape
 import SJ.Model.Hex
 import SJ.Model.Swar
+import SJ.Spec.Wtf8
+import SJ.Drv.Typed
 /-!
 Driver handlers for C05 (serializer escaping, four-hex-digit decoding, the string scanner).
 
@@ -143,7 +145,27 @@ def scan : Handler := fun args impl =>
     | _, _ => bad "decode"
   | _ => bad "arity"
 
+/-- `bytesctl <cfg> <src> <input> => OK:y<hex>; | E:…` — a string literal read as `ByteBuf`.
+    model: `Model.Typed.deTypedTop … .bytes`; spec: the statement's "the same decoding applies" — a literal with a bare
+    control character (`Spec.Wtf8.lex` finds a raw item `< 0x20`) must be rejected (open finding
+    `C05-bytes-control-char-accepted`: the crate's non-validating scanner copies it). -/
+def bytesctl : Handler := fun args impl =>
+  match args with
+  | [c, sr, h] =>
+    match Mach.srcOfTag sr, bytesOfHex h with
+    | some src, some bs =>
+      let ctl := match bs with
+        | 0x22 :: r =>
+          (match Spec.Wtf8.lex r with
+           | .ok items _ => items.any fun it => match it with | .raw b => b < 0x20 | _ => false
+           | _ => false)
+        | _ => false
+      { model := Typed.showTop bs (Typed.dataMsgOf impl) (Model.Typed.deTypedTop (Typed.envOf c src) .bytes bs),
+        specs := if ctl && impl.startsWith "OK" then ["C05 bytes target accepted a bare control character"] else [] }
+    | _, _ => bad "decode"
+  | _ => bad "arity"
+
 def handlers : List (String × Handler) :=
-  [("esc", esc), ("escbufs", escbufs), ("hex4", hex4), ("hex4s", hex4s), ("scan", scan)]
+  [("esc", esc), ("escbufs", escbufs), ("hex4", hex4), ("hex4s", hex4s), ("scan", scan), ("bytesctl", bytesctl)]
 
 end SJ.Drv.C05
